@@ -242,6 +242,9 @@ class P_xcfg(StructureParser):
             if not numpy.all(xcfg_H0_set):
                 emsg = "H0 tensor is not properly defined"
                 raise StructureFormatError(emsg)
+            if xcfg_A is None:
+                emsg = "length unit A is not defined"
+                raise StructureFormatError(emsg)
             p_auxnum = len(p_auxiliary) and max(p_auxiliary.keys()) + 1
             for i in range(p_auxnum):
                 if i not in p_auxiliary:
